@@ -339,10 +339,11 @@ theorem gmatch_star (s : Bytes) : gmatch [Tok.star] s = s.all (· != sep) := by
     simp only [gmatch, List.isEmpty_cons, Bool.false_or, ih, List.all_cons]
 
 /-- **a plain ignore line is a path prefix**: a line that, trimmed, is non-empty, is not a comment, has no leading
-    slash and none of the characters `.][*?`, excludes exactly the paths that start with it -/
+    slash, none of the characters `.][*?` (zoekt's test for the implicit `**`) and no `{` or `\\` (which the glob
+    syntax gives a meaning), excludes exactly the paths that start with it -/
 theorem ignore_plain_line (line l path : Bytes) (ht : trimSpace line = l) (hne : l ≠ [])
-    (hc : l.head? ≠ some 35) (hs : l.head? ≠ some 47) (hg : l.any isGlobChar = false) :
-    (parseLine line).map (fun p => gmatch p path) = some (l.isPrefixOf path) := by
+    (hc : l.head? ≠ some 35) (hs : l.head? ≠ some 47) (hg : l.any isGlobChar = false) (hm : l.any isMeta = false) :
+    (parseLine line).map (fun p => patMatch p path) = some (l.isPrefixOf path) := by
   cases l with
   | nil => exact absurd rfl hne
   | cons a r =>
@@ -351,6 +352,12 @@ theorem ignore_plain_line (line l path : Bytes) (ht : trimSpace line = l) (hne :
     unfold parseLine
     have : ¬ ((some a == some (35 : UInt8)) = true) := by simpa using ha35
     simp only [ht, List.isEmpty_cons, Bool.false_eq_true, if_false, List.head?_cons, this, stripSlash_ne a r ha47,
-      hg, Option.map_some, tokens_plain _ hg, gmatch_lits_dstar]
+      hg, Option.map_some, parsePattern_plain _ hm, patMatch, List.any_cons, List.any_nil, Bool.or_false,
+      gmatch_lits_dstar]
+
+/-- brace alternatives: `{a,b}` followed by `**` excludes exactly the paths that start with `a` or with `b` -/
+theorem ignore_brace_prefix (a b path : Bytes) :
+    patMatch (expand [Seg.alts [a, b], Seg.tok .dstar]) path = (a.isPrefixOf path || b.isPrefixOf path) := by
+  simp [expand, patMatch, gmatch_lits_dstar]
 
 end ZoektModel.C14
